@@ -13,6 +13,8 @@ Monitors
                           FeatureInterval / VariantInterval of the case, and a stand-alone CDSInterval per coding transcript
   dict.guid-recomputed    the same with every *computed* guid removed from the dictionary: the library recomputes the same identifiers
                           (explicitly supplied guids stay in the dictionary and must be preserved)
+  dict.input-unchanged    from_dict leaves the caller's dictionary as it was (deep comparison) and a second from_dict of the same dictionary
+                          object gives an equal object again (with and without exported parent)
   dict.export-parent      AnnotationCollection.from_dict(ac.to_dict(export_parent=True)) (no parent argument) == ac incl. sequences
   model.roundtrip         M.Schema().load(json.loads(json.dumps(M.Schema().dump(m)))) == m for m = M.from_<object>(x) and the object rebuilt
                           from it == x (same guid, coordinates, qualifiers, sequence), for all seven model classes; for the collection
@@ -78,7 +80,7 @@ RULE = (
 SCOPE = {"quick": {"RT": 90, "SENS": 20, "PERT": 6, "BATCHES": 2, "BATCH": 24, "NSEEDS": 8, "PERM": 2},
          "thorough": {"RT": 900, "SENS": 200, "PERT": 12, "BATCHES": 4, "BATCH": 40, "NSEEDS": 64, "PERM": 10}}
 FLOOR = {"quick": 800, "thorough": 6000}
-REQUIRED_MONITORS = ["qualifiers.normalised", "dict.roundtrip", "dict.guid-recomputed", "dict.export-parent", "model.roundtrip",
+REQUIRED_MONITORS = ["qualifiers.normalised", "dict.input-unchanged", "dict.roundtrip", "dict.guid-recomputed", "dict.export-parent", "model.roundtrip",
                      "pickle.roundtrip", "guid.insertion-order", "guid.cross-process", "xproc.roundtrip", "guid.sensitivity", "guid.locality"]
 _G = "inscripta.biocantor.gene."
 REACH = [
@@ -448,6 +450,21 @@ def _run_rt(case, ctx):
 
     # ---- the dictionary that carries its own parent -----------------------------------------------------------
     _same(ctx, "dict.export-parent", "from_dict(export_parent)", ac, s0, lambda: AnnotationCollection.from_dict(ac.to_dict(export_parent=True)), **info)
+    # importing is a read-only use of the dictionary: the caller's dictionary is unchanged and a second import of the SAME dictionary
+    # gives the same object again
+    import copy
+
+    for route, mk, par in (("export-parent", lambda: ac.to_dict(export_parent=True), None), ("plain", lambda: ac.to_dict(), parent)):
+        d0, exc = ctx.call(mk)
+        if exc is not None:
+            continue
+        keep = copy.deepcopy(d0)
+        first, exc = ctx.call(AnnotationCollection.from_dict, d0, par)
+        if exc is not None:
+            continue
+        ctx.check("dict.input-unchanged", d0 == keep, key=(route, "dictionary-mutated-by-from_dict"), route=route,
+                  first_difference=_short(_diff(keep, d0)) if d0 != keep else None, **info)
+        _same(ctx, "dict.input-unchanged", f"second-from_dict-of-the-same-dictionary({route})", ac, s0, lambda: AnnotationCollection.from_dict(d0, par), **info)
 
     # ---- data models through JSON -------------------------------------------------------------------------------
     def model(M, frm, to, obj, s_obj, with_parent=True, **kw):
